@@ -342,6 +342,16 @@ Fixpoint no_bad_resample (s : spectrum) (ops : list op) : Prop :=
 (* the values a*v + b*u on a common grid *)
 Definition lincomb (a : Qc) (v : list Qc) (b : Qc) (u : list Qc) : list Qc :=
   map (fun p => a * fst p + b * snd p) (combine v u).
+(* the exact integral of the straight line al*x + be between two edges, and per pair of neighbouring edges
+   (trapezoid bins) / per (edge, node, edge) triple (Simpson bins) *)
+Definition line_integral (al be x0 x1 : Qc) : Qc := al * (x1 * x1 - x0 * x0) / two + be * (x1 - x0).
+Fixpoint line_bins (al be : Qc) (x : list Qc) : list Qc :=
+  match x with x0 :: ((x1 :: _) as t) => line_integral al be x0 x1 :: line_bins al be t | _ => [] end.
+Fixpoint line_bins2 (al be : Qc) (x : list Qc) : list Qc :=
+  match x with x0 :: x1 :: ((x2 :: _) as t) => line_integral al be x0 x2 :: line_bins2 al be t | _ => [] end.
+(* centres with a common spacing h *)
+Fixpoint uniform_step (h : Qc) (c : list Qc) : Prop :=
+  match c with a :: ((b :: _) as t) => b - a = h /\ uniform_step h t | _ => True end.
 (* the value recorded for wavelength x, if x is a sample *)
 Fixpoint lookup (p : list (Qc * Qc)) (x : Qc) : option Qc :=
   match p with [] => None | (a, y) :: t => if qeqb x a then Some y else lookup t x end.
